@@ -119,6 +119,14 @@ func (r *Run) checkIntakeOrder(P string) {
 			"ok(validateOperation(_, ?op, _))",
 			"ok(operationDecorator.Decorate(_, ?op))",
 		}, nil)
+		if !ok {
+			// validateOperation as a plain function (it never used its receiver)
+			_, ok = core.MatchAll(at, []string{
+				"ok(OperationParser.Parse(_, _, $1))",
+				"ok(validateOperation(?op, _))",
+				"ok(operationDecorator.Decorate(_, ?op))",
+			}, nil)
+		}
 		r.R.Check(ok, P+".intake.order."+what, "E8 never-before: "+what+" only after Ok(Parse) ∧ Ok(validateOperation) ∧ Ok(Decorate)", core.FuncName(po), r.P.Pos(c.Pos()),
 			"an operation refused at intake must leave no trace in the unpublished store or the batch queue", "dominated by the three nil-error edges", "effect reachable without the three intake checks having succeeded")
 	}
